@@ -33,8 +33,8 @@ PROPERTIES = {
             "replies_not_crossed: the protocol object is a stub whose outcome per client is a solver variable (6 kinds)",
             "'fatal' sets: the device answers a sign command with status 0x6F01 (reply -906, shutdown); clients accepted later must "
             "receive nothing and the device log holds nothing but the served requests' blocks",
-            "the simulated transport answers each exchange atomically: defects that need a byte stream in which a late answer "
-            "stays behind (TCP / SGX socket time-outs) are outside the claim",
+            "'tcpslow' set: TCP dongle class over a byte-stream transport in which a late answer stays behind if the code gives the "
+            "socket a time-out; everywhere else the simulated transport answers each exchange atomically",
         ],
         "level_text": "bounded symbolic exploration of schedules: the schedule is a vector of 14 solver variables consumed at the decision "
                       "points of the real server code; oracle = linearisability with contiguous device blocks against the sequential runs + per-request isolation replay",
